@@ -382,6 +382,23 @@ def check_meta(out, case, base):
     rows = run(out, base, "select " + ", ".join(cols) + " from " + root + opt + " into list", len(cols), cfg=cfg, tag="C04/meta")
     if rows is None:
         return
+    if cfg is not None:
+        # the same configuration handed over with --config (a path with upper-case letters) must give the same table
+        cdir2 = os.path.join(os.path.dirname(base), "CfgDir")
+        os.makedirs(cdir2, exist_ok=True)
+        with open(os.path.join(cdir2, "My.toml"), "w") as f:
+            f.write(cfg)
+        res = runner.run(["--config", os.path.join(cdir2, "My.toml"), "select " + ", ".join(cols) + " from " + root + opt + " into list"],
+                         cwd=base, cfg=None)
+        out.evals += 1
+        if res.status != 0 or res.err:
+            out.add("C04/meta/--config/run-failed", status=res.status, stderr=res.err[:200])
+        else:
+            rows2 = runner.rows(res.out, len(cols))
+            if sorted(rows2) != sorted(rows):
+                diff = [c for c in range(len(cols)) if any(a[c] != b[c] for a, b in zip(sorted(rows), sorted(rows2)))]
+                out.add("C04/meta/--config/differs-from-default-location", columns=[cols[c] for c in diff][:6])
+        out.classes.append("config-by-switch")
     ents = {e.path: e for e in model.observe(base, root)}
     got = {}
     for r in rows:
